@@ -1,6 +1,6 @@
 (* C01 - interface files parse to a tree that mirrors the source exactly. *)
 From Coq Require Import String Ascii List Bool Arith Lia.
-From Wrap Require Import Base.Str Syntax.Ast Inst.Model Parse.Peg Parse.Build Parse.Spec Parse.RoundTrip.
+From Wrap Require Import Base.Str Syntax.Ast Inst.Model Parse.Peg Parse.Build Parse.Spec Parse.RoundTrip Parse.RoundTripModule.
 From Wrap Require gen.Grammar.
 Import ListNotations.
 Open Scope string_scope.
@@ -89,4 +89,39 @@ Example C01_function_nonvacuous :
   = " void f ( const gtsam :: Pose3 & p ) ;".
 Proof.
   split; [|reflexivity]. eexists. eexists. split; [reflexivity|]. repeat split; try discriminate; reflexivity.
+Qed.
+
+(* A whole file.  For every list of function declarations of the fragment (return type and argument types of any nesting
+   depth below the constructors' depth limit, identifiers as names, no keyword of another declaration kind as the first
+   word), the text printed with one blank before every token is parsed by Module.parseString - tab expansion, the
+   eight-way longest-match alternation of the module content, the repetition, StringEnd, the node constructors - into
+   exactly those declarations, in order: nothing dropped, nothing invented, nothing rejected.  The fuel parse_module
+   gives the interpreter is shown to be enough, so the answer is never "unsupported". *)
+Theorem C01_module_roundtrip : forall fns, Forall wf_fn fns ->
+  parse_module spec_grammar (print_module fns) = Ok (map decl_of fns).
+Proof. exact module_roundtrip. Qed.
+Print Assumptions C01_module_roundtrip.
+
+Definition sample_module : list fn :=
+  [ (TPlain (tn [] "void") false PNone true, "f", [(TPlain (tn ["gtsam"] "Pose3") true PRef false, "p")]);
+    (sample_type, "make", [(sample_type, "x"); (TPlain (tn [] "double") false PNone true, "tol_1")]);
+    (TPlain (tn [] "Key") false PNone false, "g", []) ]%string.
+Example C01_module_nonvacuous :
+  Forall wf_fn sample_module /\
+  print_module sample_module =
+    (" void f ( const gtsam :: Pose3 & p ) ;" ++
+     " const gtsam :: Foo < int , std :: vector < Bar * > , const ns :: a :: K < double & > @ > & make" ++
+     " ( const gtsam :: Foo < int , std :: vector < Bar * > , const ns :: a :: K < double & > @ > & x , double tol_1 ) ;" ++
+     " Key g ( ) ;")%string.
+Proof.
+  split; [|vm_compute; reflexivity].
+  repeat first [ apply Forall_nil | apply Forall_cons
+               | match goal with
+                 | |- head_ok _ => eexists; eexists; split; [reflexivity|]; split; [split; [discriminate | reflexivity] | vm_compute; intuition discriminate]
+                 | |- wf_fn _ => unfold wf_fn
+                 | |- wf_arg _ => unfold wf_arg; cbn [fst snd]
+                 | |- wf_ty _ => vm_compute
+                 | |- _ /\ _ => split
+                 end ];
+    try reflexivity; try discriminate; try (vm_compute; tauto); try (vm_compute; lia); try (vm_compute; intuition discriminate).
 Qed.
